@@ -358,7 +358,7 @@ def handleTransform (req : Json) : R Json := do
     cs.nMajor == (t.ids ax).length && cs.nMinor == (t.ids ax.other).length &&
     decide (cs.toDense = majorGrid t ax)
   let generic : List (String × Bool) :=
-    [("layout-contract", contract), ("frame", cFrame t r), ("log-ids", cLogIds t ax obs.log), ("log-args", cLogArgs t ax obs.log),
+    [("frame", cFrame t r), ("log-ids", cLogIds t ax obs.log), ("log-args", cLogArgs t ax obs.log),
      ("writes-back", cWriteBack t ax obs.log r), ("zero-stays-zero", cZeros t ax r),
      ("no-stored-zeros", obs.storedZeros == 0), ("inplace", cInplace t inplace obs)]
   let oracleFn : R (List Rat → List Rat) := do
@@ -383,7 +383,7 @@ def handleTransform (req : Json) : R Json := do
         && holds t ax inplace mo,
        Json.mkObj [("ok", obsToJson mo)])
     | .error e => (false, errToJson e)
-  pure (Json.mkObj (verdictToJson v ++ [("agree", .bool agree), ("model", mj)]))
+  pure (Json.mkObj (verdictToJson v ++ [("agree", .bool agree), ("contract", .bool contract), ("model", mj)]))
 
 /-- kernel-level request:
 `{"op":"kernel","cs":…,"ids":[…],"mds":[…]|null,"fn":…,"obs":{"error":name}|{"log","data","elim"}}` -/
